@@ -90,7 +90,12 @@ def main(argv):
         runs.append(run)
     # lemmas
     from .lemmas import lemma_obligations
-    lemma_run = lemma_obligations(eng, cfg.get('lemmas', []))
+    lemma_names = list(cfg.get('lemmas', []))
+    for run in runs:
+        for ln in sorted(getattr(run, 'lemmas_used', ())):
+            if ln not in lemma_names:
+                lemma_names.append(ln)
+    lemma_run = lemma_obligations(eng, lemma_names)
     if lemma_run is not None:
         runs.append(lemma_run)
     # solve
@@ -101,8 +106,8 @@ def main(argv):
             if not (o.result and o.result.get('trivial')):
                 jobs.append((run, o))
     want_all = (tier == 'thorough')
-    with concurrent.futures.ThreadPoolExecutor(max_workers=16) as ex:
-        list(ex.map(lambda ro: discharge(ro[0], ro[1], timeout, False), jobs))
+    from .engine import discharge_many
+    discharge_many(jobs, timeout, procs=int(os.environ.get('VERIF_JOBS', '10')))
     if want_all:
         # cross-solver agreement on discharged obligations
         def recheck(ro):
